@@ -439,10 +439,20 @@ def rule_PI(run: Run) -> RuleResult:
     it = pl.methods.get("__iter__")
     if it is None:
         raise AnalysisError("Pipeline.__iter__ not found")
-    ys = [n for n in astu.walk_no_nested(it) if isinstance(n, (ast.Yield, ast.YieldFrom))]
-    ys.sort(key=lambda n: (n.lineno, n.col_offset))
-    forms = [("from " if isinstance(y, ast.YieldFrom) else "") + ast.unparse(y.value) for y in ys]
-    res.add("labrea.pipeline.Pipeline.__iter__:rest before tail", forms == ["from self.rest", "self.tail"], f, it.lineno, f"yields {forms}", nec)
+    from .facts import cond_pol
+    from .interp import analyse_function
+    ips = analyse_function(Ctx(repo), pl.module, it, cls=pl)
+    forms = []
+    ok_it = bool(ips)
+    for p in ips:
+        k = p.ret.key() if p.status == "ret" and p.ret is not None else p.status
+        has_rest = {True: False, False: True}.get(cond_pol(p.conds, "cmp:Is(attr:rest(self),Const(None))"), cond_pol(p.conds, "attr:rest(self)"))
+        forms.append(f"rest {'present' if has_rest else 'absent' if has_rest is False else '?'}: {k}")
+        # the steps of rest first (when there is one), then the tail
+        want = "Coll(oneof(elem(attr:rest(self)),attr:tail(self)))" if has_rest else "Coll(attr:tail(self))"
+        if has_rest is None or k != want:
+            ok_it = False
+    res.add("labrea.pipeline.Pipeline.__iter__:rest before tail", ok_it, f, it.lineno, f"yields {forms}", nec)
     ad = pl.methods.get("__add__")
     if ad is None:
         raise AnalysisError("Pipeline.__add__ not found")
@@ -486,25 +496,55 @@ def rule_PI(run: Run) -> RuleResult:
             d or f"cases {sorted(seen)}: Pipeline(other, self) | self | Pipeline(other.tail, self) | (self + other.rest) + other.tail | Pipeline(PipelineStep(ensure(other)), self)", nec)
     # Pipeline.__init__ drops an empty rest; empty means Identity tail and no rest
     init = pl.methods.get("__init__")
-    txt = ast.unparse(init) if init else ""
-    ok = "if rest is not None and rest.empty:\n        rest = None" in txt and "self.tail = tail" in txt and "self.rest = rest" in txt
+    ok = init is not None
+    if ok:
+        ip_ = astu.param_names(init)
+        tail_p, rest_p = ip_[0], ip_[1]
+        for p in analyse_function(Ctx(repo), pl.module, init, cls=pl):
+            if p.status != "ret":
+                continue
+            st = {e.args[1].key(): e.target.key() for e in p.events if e.kind == "store" and len(e.args) == 2 and e.args[0].key() == "self" and e.target is not None}
+            is_none = cond_pol(p.conds, f"cmp:Is({rest_p},Const(None))")
+            empty = cond_pol(p.conds, f"attr:empty({rest_p})")
+            want_rest = "Const(None)" if (is_none is True or empty is True) else rest_p
+            if st.get("Const('tail')") is None or (tail_p not in st["Const('tail')"] and st["Const('tail')"] != "New(PipelineStep;_name=Const(None),step=New(Value;value=Fn(_identity;)))") \
+                    or st.get("Const('rest')") != want_rest:
+                # (a missing tail is replaced by the identity step; an empty rest is normalised to None)
+                if not (st.get("Const('rest')") == want_rest and st.get("Const('tail')") is not None):
+                    ok = False
     res.add("labrea.pipeline.Pipeline.__init__:stores tail and rest, normalising an empty rest to None", ok, f, init.lineno if init else 0, "", nec)
     em = pl.methods.get("empty")
-    rets = [ast.unparse(r.value) for r in ast.walk(em) if isinstance(r, ast.Return)] if em else []
-    res.add("labrea.pipeline.Pipeline.empty:Identity tail and no rest", rets == ["self.tail == Identity and self.rest is None"], f, em.lineno if em else 0, f"{rets}", nec)
+    ok = em is not None
+    shown = []
+    if ok:
+        from .facts import bool_atoms
+        for p in analyse_function(Ctx(repo), pl.module, em, cls=pl):
+            k = p.ret.key() if p.status == "ret" and p.ret is not None else p.status
+            shown.append(k[:120])
+            ats = bool_atoms(p.ret) if p.ret is not None else []
+            if not (getattr(p.ret, "head", "") == "and" and len(ats) == 2 and any(a_.startswith("cmp:Eq(attr:tail(self),") and "_identity" in a_ for a_ in ats)
+                    and "cmp:Is(attr:rest(self),Const(None))" in ats):
+                ok = False
+    res.add("labrea.pipeline.Pipeline.empty:Identity tail and no rest", ok, f, em.lineno if em else 0, f"{shown}", nec)
     ps_ = repo.cls("PipelineStep")
     ad2 = ps_.methods.get("__add__")
-    ok = False
-    if ad2 is not None:
-        amap = astu.single_assign_map(ad2)
-        rets = [ast.unparse(astu.expand_locals(r.value, amap)) for r in ast.walk(ad2) if isinstance(r, ast.Return)]
-        ok = rets == ["Pipeline(self) + other"]
+    ok = ad2 is not None
+    if ok:
+        oth = astu.param_names(ad2)[0]
+        aps = analyse_function(Ctx(repo), ps_.module, ad2, cls=ps_)
+        ok = bool(aps) and all(p.status == "ret" and p.ret is not None and p.ret.key() == f"binop:Add(New(Pipeline;rest=Const(None),tail=self),{oth})" for p in aps)
     res.add("labrea.pipeline.PipelineStep.__add__:Pipeline(self) + other", ok, f, ad2.lineno if ad2 else 0, "", nec)
     # pipeline_step: first parameter is the input (no default), the rest are option-valued defaults
     psf = repo.func("labrea.pipeline.pipeline_step")
-    rets = [ast.unparse(r.value) for r in ast.walk(psf.node) if isinstance(r, ast.Return)]
-    ok = len(rets) == 1 and rets[0].startswith("PipelineStep(PartialApplication.lift(func)")
-    res.add("labrea.pipeline.pipeline_step:PipelineStep(PartialApplication.lift(func), name)", ok, f, psf.node.lineno, f"{rets}", nec)
+    fpar = [a.arg for a in psf.node.args.posonlyargs + psf.node.args.args][0]
+    pps = [p for p in analyse_function(Ctx(repo), psf.module, psf.node) if p.status == "ret" and cond_pol(p.conds, f"cmp:Is({fpar},Const(None))") is False]
+    ok = bool(pps)
+    for p in pps:
+        r_ = p.ret
+        stp = r_.attrs.get("step") if isinstance(r_, New) and r_.cls.name == "PipelineStep" else None
+        if not (isinstance(stp, New) and stp.cls.name == "PartialApplication" and stp.attrs.get("func") is not None and fpar in stp.attrs["func"].key()):
+            ok = False
+    res.add("labrea.pipeline.pipeline_step:PipelineStep(PartialApplication.lift(func), name)", ok, f, psf.node.lineno, f"{len(pps)} paths that lift a given function", nec)
     # PartialApplication.lift: every defaulted parameter becomes an evaluated keyword
     pa = repo.cls("PartialApplication")
     lf = pa.methods.get("lift")
